@@ -93,6 +93,20 @@ class LimCtx:
             atol = kwargs.get("atol", args[3] if len(args) > 3 else Fraction("1e-8"))
             return A.cmp("<=", A.abs(x - y), A.lift(atol) + A.lift(rtol) * A.abs(y))
         it.np_hooks["isclose"] = isclose
+        lc = self
+
+        class _Rank:
+            """np.ndim / np.shape / np.size of a limiter argument: the statement covers scalars AND arrays, so a
+            test on it is free -- both outcomes are realisable (a scalar call, an entry of an array)"""
+            def _fd_compare(self_, sym, other):
+                i = lc.free_used
+                lc.free_used += 1
+                lc.max_free = max(lc.max_free, lc.free_used)
+                ch = lc.policy[i] if i < len(lc.policy) else True
+                lc.path += " [scalar / array test %s %r]=%s" % (sym, other, ch)
+                return ch
+        for nm in ("ndim", "shape", "size", "isscalar"):
+            it.np_hooks[nm] = (lambda args, kwargs: _Rank()) if nm != "isscalar" else (lambda args, kwargs: _Rank()._fd_compare("isscalar", None))
         v = it.call_function(self.f, [a, b])
         if isinstance(v, (int, Fraction)):
             v = A.const(v)
